@@ -250,6 +250,11 @@ def build():
   from . import writer_units as WU
   units.append(Unit('writer.writeCachedDataPoints[iteration]', WU.u_write_iteration, [WU.WCD],
                     expect_covers=['iteration/written', 'create/created']))
+  # "changing the limits at shutdown takes effect": the before-shutdown trigger sets both buckets to
+  # the shutdown rate (labels C20/shutdownModifyUpdateSpeed/*; the same unit carries C04's lag clause)
+  from . import writer_forever as WF
+  units.append(Unit('writer.shutdownModifyUpdateSpeed', WF.u_shutdown_modify, [WF.W + ':shutdownModifyUpdateSpeed'],
+                    expect_covers=['shutdown/returns']))
   return Property(
     'C20', units,
     bounded=[Bounded('C20/native/token_bucket_cross_check', 'replay/bucket_native.py', ['--n', '2000', '--len', '5'], ['--n', '60000', '--len', '6'],
